@@ -1,7 +1,7 @@
 """C09 configuration for ./check (see lib/props.py)."""
 
 CFG = {
-    "modules": ["HumphreyModel.Props.C09"],
+    "modules": ["HumphreyModel.Props.C09", "HumphreyModel.Props.C09Trunc"],
     "rule": "proxy_request (500 ms budget) and the server's proxy_handler against scripted loopback upstreams on real "
             "sockets: valid responses of 9 status codes x {Content-Length, chunked in random chunkings, close-delimited} "
             "sent whole, in two segments with a pause, or complete-then-silent; valid responses cut at byte offsets "
@@ -26,7 +26,11 @@ CFG = {
                   "accept-then-silence / anything invalid or cut short => 502; a complete valid response (self-delimiting, "
                   "or close-delimited then closed) is returned unchanged; close-delimited then stall => 502; "
                   "relay_adds_only_xff; stripPrefix_drop; round_robin_strict (k-th pick = targets[(i+k) mod n] for all "
-                  "k, n) and random_in_set. Timing is observed by the run, not modelled.",
+                  "k, n) and random_in_set. Props/C09Trunc.lean: cut_at_any_offset_502 and chunked_cut_at_any_offset_502 — EVERY "
+                  "proper prefix of every well-formed Content-Length or chunked response (cut in the status line, a "
+                  "field line, the blank line, the body, a size line, chunk data, the CRLF after it, the last chunk), "
+                  "delivered in any segmentation and followed by close or silence, yields the 502; cut_in_pad_is_complete "
+                  "shows the offset bound exact. Timing is observed by the run, not modelled.",
     "level_note": "Trusted: Lean kernel; Model/Proxy.lean tied to proxy.rs (both crates) by real-socket runs.",
     "technique": "Lean 4 decision-logic theorems over an upstream-behaviour model + real-socket differential run with timing",
 }
